@@ -57,4 +57,47 @@ def mulDims (a b : Dims) : Dims := a ++ b
 def divDims (a b : Dims) : Dims := a ++ b.map fun (x, e) => (x, -e)
 def powDims (a : Dims) (q : Rat) : Dims := a.map fun (x, e) => (x, e * q)
 
+
+/-- celsius and fahrenheit measure temperature: physically they are kelvin -/
+def rename (d : Dims) : Dims := d.map fun (b, e) => (if b = celsius ∨ b = fahrenheit then kelvin else b, e)
+
+/-- expression trees as far as units are concerned.  `pow a e q`: `e` is the exponent sub-expression and
+`q` the pure number it evaluates to; `add z a b`: `z` = the right operand is an exact zero (then `Value::add`
+returns the left operand untouched); `fn1`/`fn2`: functions that need pure numbers (ln, !, mod, bitwise, …),
+which convert every argument to `unitless` first -/
+inductive UExpr where
+  | leaf (d : Dims)
+  | mul (a b : UExpr)
+  | div (a b : UExpr)
+  | pow (a e : UExpr) (q : Rat)
+  | add (z : Bool) (a b : UExpr)
+  | conv (a b : UExpr)
+  | fn1 (a : UExpr)
+  | fn2 (a b : UExpr)
+deriving Repr
+
+/-- the unit components the evaluator ends up with (`none` = an incompatible-units error) -/
+def dimsOf (bases : List Nat) : UExpr → Option Dims
+  | .leaf d => some d
+  | .mul a b => match dimsOf bases a, dimsOf bases b with
+    | some x, some y => some (mulDims x y) | _, _ => none
+  | .div a b => match dimsOf bases a, dimsOf bases b with
+    | some x, some y => some (divDims x y) | _, _ => none
+  | .pow a e q => match dimsOf bases a, dimsOf bases e with
+    | some x, some y => if sameDims bases (reduce y).1 (reduce []).1 then some (powDims x q) else none
+    | _, _ => none
+  | .add z a b => match dimsOf bases a, dimsOf bases b with
+    | some x, some y => if z then some x else if sameDims bases (reduce y).1 (reduce x).1 then some x else none
+    | _, _ => none
+  | .conv a b => match dimsOf bases a, dimsOf bases b with
+    | some x, some y => if sameDims bases (reduce x).1 (reduce y).1 then some y else none
+    | _, _ => none
+  | .fn1 a => match dimsOf bases a with
+    | some x => if sameDims bases (reduce x).1 (reduce []).1 then some [] else none
+    | none => none
+  | .fn2 a b => match dimsOf bases a, dimsOf bases b with
+    | some x, some y =>
+      if sameDims bases (reduce x).1 (reduce []).1 && sameDims bases (reduce y).1 (reduce []).1 then some [] else none
+    | _, _ => none
+
 end Fend.Units
